@@ -61,6 +61,7 @@ class Contract:
         self.bind = kw.get("bind", {})
         self.bind_varargs = kw.get("bind_varargs", [])
         self.bind_kwargs = kw.get("bind_kwargs", [])
+        self.defaults = kw.get("defaults", {})
         self.yields = kw.get("yields")          # element type of an (async) generator
         self.cancellation = kw.get("cancellation", False)          # function parameter -> name of a let / param (derived argument)
         self.post_lets = kw.get("post_let", {})  # name -> expr, evaluated at exit
@@ -69,6 +70,7 @@ class Contract:
         self.notes = kw.get("notes", "")
         self.calls_inline = set(kw.get("calls_inline", []))
         self.reveal = set(kw.get("reveal", []))
+        self.defines_on_return = kw.get("defines_on_return")   # opaque predicate (expr) defined as "this pure function returns normally"
         self.exists = kw.get("exists", {})      # name -> {"len": expr, "witness": expr}: existentially quantified bytes in `returns`
         self.emits = kw.get("emits", {})        # ghost events appended at call sites: name -> expr
         self.scenario = kw.get("scenario", {})  # callee qualname -> clause assumed on its normal return (hypothesis about the environment)
@@ -640,6 +642,8 @@ class ContractSet:
             loc = dict(loc)
             for p in c.bind_kwargs:
                 v = I.dict_get(kd, VStr(c=p), None)
+                if v is None and p in c.defaults:
+                    v = I.ev(c.expr(c.defaults[p]), Frame(c.module, locals={}, func="<spec>"))
                 if v is None:
                     raise Unsupported(f"{c.target}: keyword argument {p} expected by the contract is missing at the call site")
                 loc[p] = v
@@ -671,12 +675,16 @@ class ContractSet:
             if isinstance(fv.node, ast.AsyncFunctionDef):
                 from . import libmodels
                 libmodels.env_step(I)       # the callee may have been suspended: time passed, peers may have closed
+            if c.defines_on_return:
+                t = self.eval_clause(I, c, c.defines_on_return, sfr)
+                P.assume(t.term() if k == 0 else z3.Not(t.term()))
+                P.assumption(f"definition: {c.defines_on_return} :<=> {c.target} returns normally (a deterministic function of its arguments)")
             if k == 0:
                 self.havoc_modifies(I, c, sfr, c.modifies)
                 early = set()
                 for n, src in c.ensures.items():
                     nm = {x.id for x in ast.walk(c.expr(src)) if isinstance(x, ast.Name)}
-                    if "result" in nm or nm & set(c.post_lets) or nm & set(c.exists) or "events(" in src or nm & set(c.assigns):
+                    if "result" in nm or nm & set(c.post_lets) or nm & set(c.exists) or "events(" in src or "final(" in src or nm & set(c.assigns):
                         continue
                     if any(lv.split(".")[0] in nm for lv in list(c.assigns) + list(c.modifies)) and "old(" not in src and False:
                         continue
@@ -712,7 +720,7 @@ class ContractSet:
                     return any(isinstance(x, ast.Name) and x.id in pool for x in ast.walk(c.expr(src)))
                 # pass 1: clauses that do not depend on post_let values (they may be what makes the lets well defined)
                 for n, src in c.ensures.items():
-                    if "events(" in src or uses(src, names) or n in early:
+                    if "events(" in src or "final(" in src or uses(src, names) or n in early:
                         continue
                     t = self.eval_clause(I, c, src, sfr)
                     P.assume(t.term())
@@ -725,7 +733,7 @@ class ContractSet:
                     except PyRaise as e:
                         raise Unsupported(f"post_let {n} of {c.target} raised {I.hobj(e.exc).cls.name} at a call site")
                 for n, src in c.ensures.items():
-                    if "events(" in src or uses(src, tainted) or not uses(src, names):
+                    if "events(" in src or "final(" in src or uses(src, tainted) or not uses(src, names):
                         continue        # event clauses speak about the callee's own ghost trace; the caller gets the `emits` instead
                     t = self.eval_clause(I, c, src, sfr)
                     P.assume(t.term())
@@ -772,6 +780,8 @@ class ContractSet:
         for lv in mods:
             if lv.endswith(".*"):
                 base = I.resolve(I.ev(c.expr(lv[:-2]), sfr))
+                if isinstance(base, VNone):
+                    continue
                 if not isinstance(base, VRef) or I.hobj(base).cls is None:
                     raise Unsupported(f"modifies {lv}: not an object")
                 for f, ft in self.class_fields(I.hobj(base).cls).items():
